@@ -175,6 +175,9 @@ class Closure(SymObj):
         self.qual = qual
 
     def py_call(self, I, args, kwargs):
+        pol = I.world._policy.get(self.qual)
+        if callable(pol):  # a nested function put under contract (e.g. the recursive generator of MultiTypeMap.mro)
+            return pol(I, list(args), dict(kwargs))
         return I.exec_function(self.node, self.modname, self.qual, list(args), dict(kwargs), self.env)
 
 
@@ -325,6 +328,19 @@ class Stream(SymObj):
         self.length = length
         self.guards = list(guards)
         self.elem = elem
+        self.oneshot = False  # zip / map / enumerate / reversed / generator expressions are exhausted by their first consumer
+        self.consumed = False
+
+    def consume(self):
+        """Called once by every consumer; returns the view that consumer iterates over: the stream itself for a
+        re-iterable sequence, a snapshot for a one-shot iterator (empty if it was consumed before)."""
+        if not self.oneshot:
+            return self
+        snap = Stream(z3.IntVal(0) if self.consumed else self.length, None, self.guards, self.elem)
+        if hasattr(self, "src"):
+            snap.src = self.src
+        self.consumed = True
+        return snap
 
     def guard_at(self, I, i):
         cond = z3.And(i >= 0, i < self.length)
@@ -357,21 +373,50 @@ class Stream(SymObj):
         return self
 
     def py_truth(self, I):
+        if self.oneshot:
+            return True  # an iterator object is truthy whatever it contains
         i = I.fresh("si", z3.IntSort())
         return z3.Exists([i], self.guard_at(I, i))
 
     def exists(self, I, pred):
+        if self.oneshot:
+            return self.consume().exists(I, pred)
         i = I.fresh("si", z3.IntSort())
         g = self.guard_at(I, i)
         return z3.Exists([i], z3.And(g, pred(self.elem_at(I, i, g), i)))
 
     def forall(self, I, pred):
+        if self.oneshot:
+            return self.consume().forall(I, pred)
         i = I.fresh("si", z3.IntSort())
         g = self.guard_at(I, i)
         return z3.ForAll([i], z3.Implies(g, pred(self.elem_at(I, i, g), i)))
 
     def py_contains(self, I, x):
         return self.exists(I, lambda e, i: I.eq_term(e, x))
+
+    def py_getattr(self, I, name):
+        return I.world.stream_attr(I, self, name)
+
+    def py_getitem(self, I, key):
+        return I.world.materialize(I, self).py_getitem(I, key)
+
+
+class OneShotList(SymObj):
+    """A one-shot iterator over concretely many items (generator expression / zip / map over concrete lists)."""
+
+    def __init__(self, items):
+        self.items = list(items)
+        self.consumed = False
+
+    def py_iter(self, I):
+        if self.consumed:
+            return []
+        self.consumed = True
+        return list(self.items)
+
+    def py_truth(self, I):
+        return True
 
 
 class SymSet(SymObj):
@@ -748,6 +793,15 @@ class Interp:
                 ob.model = self.world.describe_model(self, m) if m is not None else ""
             else:
                 ob.status = "unknown"
+                import os
+
+                if os.environ.get("PYVC_DUMP"):
+                    self.solver.push()
+                    self.solver.add(z3.Not(goal))
+                    try:
+                        open(os.path.join(os.environ["PYVC_DUMP"], f"unknown_{len(self.obligations)}_{tag.replace('/', '_')[:60]}.smt2"), "w").write(self.solver.to_smt2())
+                    finally:
+                        self.solver.pop()
         if ob.status == "proved" and ob.note != "trivial" and self.xcheck is not None and ob.name not in self.xchecked:
             self.xchecked.add(ob.name)
             self.solver.push()
@@ -879,12 +933,20 @@ class Interp:
 
     def is_(self, a, b):
         if a is None or b is None or a is NotImplemented or b is NotImplemented:
+            for x, y in ((a, b), (b, a)):
+                if y is None and isinstance(x, SymObj) and hasattr(x, "py_is_none"):
+                    return x.py_is_none(self)  # the value of a variable that may still hold None (havocked by a loop)
             if isinstance(a, ZV) or isinstance(b, ZV):
                 z = a if isinstance(a, ZV) else b
                 r = self.world.is_singleton(self, z, b if z is a else a)
                 return False if r is None else r
             return a is b
         if isinstance(a, (ZV,)) or isinstance(b, (ZV,)):
+            for x, y in ((a, b), (b, a)):
+                if isinstance(x, ZV) and hasattr(x, "py_is"):
+                    r = x.py_is(self, y)
+                    if r is not NotImplemented:
+                        return r
             return self.eq(a, b)
         if isinstance(a, SymObj) or isinstance(b, SymObj):
             if hasattr(a, "py_is"):
@@ -1120,7 +1182,16 @@ class Interp:
 
     def st_Try(self, st, env, mod):
         if st.finalbody:
-            raise OutOfSubset("try/finally")
+            try:
+                self._try_core(st, env, mod)
+            except (PyRaise, _Return, _Break, _Continue):
+                self.exec_block(st.finalbody, env, mod)  # an exception raised by the finally block replaces the pending one
+                raise
+            self.exec_block(st.finalbody, env, mod)
+            return
+        self._try_core(st, env, mod)
+
+    def _try_core(self, st, env, mod):
         try:
             self.exec_block(st.body, env, mod)
         except PyRaise as e:
@@ -1230,6 +1301,7 @@ class Interp:
             raise OutOfSubset(f"loop over symbolic collection without invariant ({self.frames[-1].qual} loop {ordinal})")
         if not isinstance(seq, Stream):
             raise OutOfSubset("for over unsupported iterable")
+        seq = seq.consume()
         if seq.guards:
             seq = self.world.materialize(self, seq).stream(self)
         tag = f"loop{ordinal}"
@@ -1308,6 +1380,10 @@ class Interp:
         if isinstance(it, (set, frozenset)):
             return list(it)
         if isinstance(it, dict):
+            return list(it.keys())
+        import collections.abc as _abc
+
+        if isinstance(it, _abc.Mapping):
             return list(it.keys())
         if isinstance(it, Stream):
             return it
@@ -1667,6 +1743,17 @@ class Interp:
         raise OutOfSubset(f"membership in {coll!r}")
 
     def ex_Call(self, e, env, mod):
+        if isinstance(e.func, ast.Name) and e.func.id == "super" and not e.args and not e.keywords and self.frames:
+            fr = self.frames[-1]
+            fnode = None
+            try:
+                m_, q_ = fr.qual.split(":")
+                fnode = source.module(m_).functions.get(q_)
+            except Exception:
+                fnode = None
+            if fnode is not None and fnode.args.args:
+                return self.world.super_of(self, fr.env.get(fnode.args.args[0].arg), fr.qual)
+            raise OutOfSubset("super() outside a method")
         fn = self.eval(e.func, env, mod)
         args = self._elts(e.args, env, mod)
         kwargs = {}
@@ -1721,6 +1808,7 @@ class Interp:
         src = self.iterable(self.eval(g.iter, env, mod))
         if isinstance(src, list):
             return self._comp_concrete(e, gens, env, mod, elt_fn, first=src)
+        src = src.consume()  # a comprehension exhausts a one-shot iterator it draws from
         # symbolic source: build a Stream in pure mode, indexed by the source index
         cenv = Env(env)
         cenv.is_comp = True
@@ -1753,7 +1841,10 @@ class Interp:
                 self.pure -= 1
 
         guards = list(src.guards) + ([guard_i] if g.ifs else [])
-        return Stream(src.length, None, guards, elem_i)
+        st = Stream(src.length, None, guards, elem_i)
+        if hasattr(src, "src"):
+            st.src = src.src  # same index space as the source: keeps the inverse index of a duplicate-free source reachable
+        return st
 
     def _comp_concrete(self, e, gens, env, mod, elt_fn, first=None):
         out = []
@@ -1786,7 +1877,12 @@ class Interp:
         return r
 
     def ex_GeneratorExp(self, e, env, mod):
-        return self._comp(e, env, mod, lambda ce: self.eval(e.elt, ce, mod))
+        r = self._comp(e, env, mod, lambda ce: self.eval(e.elt, ce, mod))
+        if isinstance(r, Stream):
+            r.oneshot = True
+        elif isinstance(r, list):
+            r = OneShotList(r)
+        return r
 
     def ex_SetComp(self, e, env, mod):
         r = self._comp(e, env, mod, lambda ce: self.eval(e.elt, ce, mod))
